@@ -137,8 +137,8 @@ func compareVersionParts(a, b []string) int {
 		}
 
 		// Compare parts using natural ordering
-		if aPart != bPart {
-			return naturalCompare(aPart, bPart)
+		if cmp := naturalCompare(aPart, bPart); cmp != 0 {
+			return cmp
 		}
 	}
 
